@@ -26,9 +26,9 @@ def classify(line):
 CFG = dict(
     imports=["From Verif.C02 Require Import Model Spec.", "From Verif.C01 Require Import Spec.", "Open Scope N_scope."],
     checker="check_case",
-    n=dict(quick=150, thorough=6000),
-    shard=40,
-    deps=["C02"],
+    n=dict(quick=120, thorough=6000),
+    shard=400,
+    deps=["C02", "C04", "C07"],
     classify=classify,
     rule="datastore histories of 30-200 events over a universe of 3 workload endpoints (2 local, 1 remote), 2 host endpoints, 3 profiles "
          "(rules + labels-to-apply), 3 tiers, 4 policies (3 global + 1 namespaced; tier default/tier-1/tier-2 possibly absent, order "
